@@ -29,3 +29,10 @@ func (c *Cache) VerifSnapshot() (order []string, items []string, elems []string)
 	}
 	return
 }
+
+// VerifStopMetadataCleanup stops the metadata cache's 5-minute clean-up goroutine. Under testing/synctest a goroutine waiting
+// for the cache's mutex (held by GetMetadata for a whole discovery round) is not "durably blocked", so virtual time could not
+// advance past a clean-up tick that falls into a round. The clean-up only drops a document that is already expired.
+func (t *TraefikOidc) VerifStopMetadataCleanup() {
+	t.metadataCache.Close()
+}
